@@ -461,7 +461,31 @@ func build(r *rt.Run) (scs []scenario, exhaustive bool, extra map[string]any) {
 		{{bm(0, 1, 1, 1), bm(0, 2, 2, 2)}, {bm(1, 1, 2, 1, 2)}}, // 6 + 4 messages: 210 orders
 	}
 
+	// point-time patterns INSIDE one joined batch set (joinset.JoinIntoBatch: cursors, skipped parents, the
+	// "backup" rewind): three batch parents, one batch each with the same tmax, every assignment of a
+	// time-ordered sequence of minLen..maxLen point times over 1..3 per parent (a parent later than the
+	// others, a later parent earlier than an earlier one, duplicates, empty batches).
+	batchSetFor := func(c Cfg, minLen, maxLen int) {
+		c.Edge, c.N = "batch", 3
+		var seqs [][]int
+		for n := minLen; n <= maxLen; n++ {
+			seqs = append(seqs, nonDecSeqs(3, n)...)
+		}
+		k := 0
+		cartesian(3, len(seqs), func(pick []int) {
+			ps := make([][]Msg, 3)
+			for s := range ps {
+				ps[s] = []Msg{{T: 3, G: "x", V: 10*(s+1) + 1, P: append([]int{}, seqs[pick[s]]...)}}
+			}
+			order := [][]int{{0, 1, 2}, {2, 1, 0}, {1, 2, 0}}[k%3]
+			k++
+			add(c, ps, blockSchedule(order, lensOf(ps)))
+		})
+	}
+
 	if !r.Thorough() {
+		batchSetFor(Cfg{Kind: "join", Fill: "null", Tol: 0}, 1, 2)
+		batchSetFor(Cfg{Kind: "join", Fill: "none", Tol: 0}, 1, 2)
 		gatedFor(Cfg{Kind: "join", N: 2, Fill: "null", Tol: 0}, gshapes2)
 		gatedFor(Cfg{Kind: "union", N: 2, Fill: "none"}, gshapes2[:1])
 		allFor(Cfg{Kind: "join", Edge: "batch", N: 2, Fill: "none", Tol: 2, Streamed: true}, 2, 1)
@@ -491,6 +515,13 @@ func build(r *rt.Run) (scs []scenario, exhaustive bool, extra map[string]any) {
 		}
 		extra["bounds"] = "2 parents x <=2 messages (times 1..3, duplicates, gaps, silent parent) x all interleavings for fill x tolerance; 3 parents x <=1; batch sampled"
 		return scs, false, extra // join.on and batch inputs are sampled in this tier
+	}
+	for _, c := range joinCfgs("batch", 3) {
+		if c.Tol == 0 && c.Fill != "num" {
+			batchSetFor(c, 0, 3)
+		} else {
+			batchSetFor(c, 0, 2)
+		}
 	}
 	gshapes3 := [][][]Msg{{{bm(0, 1, 1, 1)}, {bm(1, 1, 1, 1)}, {bm(2, 1, 2, 1, 2)}}} // 3 + 3 + 4 messages: 4200 orders
 	for _, c := range []Cfg{{Kind: "join", N: 2, Fill: "null", Tol: 0}, {Kind: "join", N: 2, Fill: "none", Tol: 2}, {Kind: "union", N: 2, Fill: "none"}} {
